@@ -58,9 +58,10 @@ class Ctx:
         from .model import canonicalise_private_attributes, canonicalise_private_helpers, fold_constants
 
         self.folded_constants = fold_constants(self.prog)
-        from .model import inline_attribute_aliases
+        from .model import canonicalise_private_params, inline_attribute_aliases
 
         self.inlined_aliases = inline_attribute_aliases(self.prog)
+        self.renamed_params = canonicalise_private_params(self.prog)
         self.renamed_helpers = canonicalise_private_helpers(self.prog)
         self.renamed_helpers.update(canonicalise_private_attributes(self.prog))
         register_program_exceptions(self.prog)
@@ -83,6 +84,8 @@ class Ctx:
             self.notes.append("constants bound once to a literal, read as that literal: " + ", ".join(self.folded_constants))
         if self.inlined_aliases:
             self.notes.append("local aliases of attribute chains read as the chain: " + ", ".join(self.inlined_aliases))
+        if self.renamed_params:
+            self.notes.append("parameters of private helpers read under the name every caller passes: " + ", ".join(self.renamed_params))
         if self.prog.unrolled:
             self.notes.append("loops over literal tables read as unrolled ladders: " + ", ".join(self.prog.unrolled))
         self.depth = 4 if tier == "quick" else 6
